@@ -5,14 +5,13 @@ CONSTANTS
   Dense = TRUE
   KeepStatus = FALSE
   RecheckAtApply = TRUE
-  RecheckISR = TRUE
-  CountAll = TRUE
+  RecheckISR = FALSE
+  CountAll = FALSE
   InitISRs = {{"r1"}, {"r1", "r2"}, {"r1", "r2", "r3"}, {"r1", "r2", "r3", "r4"}}
   L0 = "r1"
-  PairSels = {"cur", "sl", "prev", "next", "pep", "first"}
-  MaxOps = 8
-  MaxPend = 0
-INVARIANTS C07_LeaderInISR
-PROPERTIES StepsOK
+  PairSels = {"cur", "first"}
+  MaxOps = 6
+  MaxPend = 2
+INVARIANTS NoTaint
 VIEW MCView
 CHECK_DEADLOCK FALSE
